@@ -849,6 +849,44 @@ def treeOfJson : Nat → Json → R Tree
       pure (.node (← asInt x, ← asInt y) ss ls)
     | _ => .error "expected [x,y,subs,leaves]"
 
+/-- a tree sent as a flat pre-order list of nodes `[x, y, [[dir, childIndex], ...], [[route, vertex], ...]]`
+(every child index larger than its parent's index, root = entry 0).  The tree is assembled bottom-up by a loop,
+so that decoding does not recurse over the depth of the tree (routing trees can be thousands of hops deep);
+the oracle applied to the result is the same `validTree`. -/
+def treeOfFlat (j : Json) : R Tree := do
+  let nodes ← (← asArr j).mapM fun e => do
+    match ← asArr e with
+    | [x, y, subs, leaves] =>
+      let ss ← (← asArr subs).mapM fun k => do
+        match ← asArr k with
+        | [d, i] => pure (← asNat d, ← asNat i)
+        | _ => .error "expected [dir, index]"
+      let ls ← (← asArr leaves).mapM fun k => do
+        match ← asArr k with
+        | [r, v] => pure (← asOpt r asNat, ← asNat v)
+        | _ => .error "expected [route, vertex]"
+      pure (((← asInt x, ← asInt y) : Chip), ss, ls)
+    | _ => .error "expected [x,y,subs,leaves]"
+  let arr := nodes.toArray
+  let n := arr.size
+  if n == 0 then .error "empty flat tree"
+  let mut built : Array (Option Tree) := Array.replicate n none
+  for k in [0:n] do
+    let i := n - 1 - k
+    match arr[i]? with
+    | none => .error "index"
+    | some (c, kids, lv) =>
+      let mut subs : List (Nat × Tree) := []
+      for (d, jx) in kids.reverse do
+        if jx ≤ i then .error "flat tree: child index must exceed the parent index"
+        match built[jx]? with
+        | some (some t) => subs := (d, t) :: subs
+        | _ => .error "flat tree: bad child index"
+      built := built.set! i (some (.node c subs lv))
+  match built[0]? with
+  | some (some t) => pure t
+  | _ => .error "flat tree: no root"
+
 def jErrE (e : Err) : Json := jErr e.name
 
 def jCopy (cs : CopyState) : Json :=
@@ -926,7 +964,9 @@ def handle (op : String) (j : Json) : R Json := do
     let m ← machineOfJson j
     let sinks ← (← arr j "sinks").mapM sinkOfJson
     let src ← chipOfJson (← field j "source")
-    let t ← treeOfJson 100000 (← field j "tree")
+    let t ← match ← opt j "flat" pure with
+      | some fj => treeOfFlat fj
+      | none => treeOfJson 100000 (← field j "tree")
     pure (Json.mkObj [("valid", Json.bool (validTree m src sinks t)),
       ("why", jList ((validTreeWhy m src sinks t).map Json.str)),
       ("stubs", jNat (t.dangling true).length)])
